@@ -97,6 +97,10 @@ def run(prop, tier):
         res.violation(what, {"kind": "gradual", "scenario": rec["scenario"], "profile": m["profile"],
                              "cfg_index": m["cfg"], "cfg": rec["cfg"], "osu_text": rec["osu_text"],
                              "mismatch": m, "tier": tier})
+    # ---- osu! stacking (OsuStacking.tla): a partial play and the gradual calculators see the stack heights of the whole map
+    if prop in ("C02", "C03"):
+        from checks import osustack
+        osustack.run_stack(res, tier, binp)
     # ---- implementation -> specification: recorded traces validated by TLC
     trace = os.path.join(common.OUT, "gradual_trace_%s_%s_%d.ndjson" % (prop, tier, os.getpid()))
     p = common.run_harness(binp, ["gradual-record", trace, "--tier", tier])
